@@ -338,12 +338,14 @@ fn concurrent_inflator_lookups(run: &Run, thorough: bool) {
     let expected: Vec<Option<u128>> = (0..per_thread * threads).map(|i| ref_dosc_to_erg(base + i, real)).collect();
     let wrong = std::sync::atomic::AtomicU64::new(0);
     let first_wrong = parking_lot::Mutex::new(None);
+    let barrier = std::sync::Barrier::new(threads as usize);
     std::thread::scope(|s| {
         for t in 0..threads {
-            let (wrong, first_wrong, expected) = (&wrong, &first_wrong, &expected);
+            let (wrong, first_wrong, expected, barrier) = (&wrong, &first_wrong, &expected, &barrier);
             s.spawn(move || {
-                // thread t asks for base + t, base + t + threads, ...: neighbouring fresh heights are requested by different threads
+                // in every round the threads ask for neighbouring fresh heights at the same moment (thread t: base + round * threads + t)
                 for j in 0..per_thread {
+                    barrier.wait();
                     let i = j * threads + t;
                     let got = guard(|| melstf::dosc_to_erg(BlockHeight(base + i), real));
                     run.transition();
